@@ -11,6 +11,7 @@ func init() {
 		DesignRef:   "DESIGN.md section 3, C08",
 		Runs: []run{
 			{Test: "TestC08_Seq", Quick: 1500, Thorough: 60000},
+			{Test: "TestC08_OneP", Quick: 1000, Thorough: 40000},
 			{Test: "TestC08_Race", Quick: 800, Thorough: 24000, Race: true},
 		},
 	})
